@@ -27,7 +27,7 @@ import (
 type world struct {
 	c        *hx.Ctx
 	k        *ledgerkit.Kit
-	users    []*account.Account // users[0] is the bookkeeper (holds the supplies)
+	users    []*account.Account // users[0] is the bookkeeper (holds the supplies; only refills, never a random payer)
 	contract common.Address     // deployed: Storage.Put(key, value) then THROWIFNOT flag
 	stored   map[string][]byte  // persisted ONG records at the start of the block being observed
 }
@@ -240,9 +240,6 @@ func (w *world) genTx() (*types.Transaction, *txDesc, error) {
 	if c.Intn(2) == 0 {
 		d.Payer = 1 + c.Intn(3) // the better funded ones
 	}
-	if c.Intn(12) == 0 {
-		d.Payer = 0
-	}
 	d.Signer = d.Payer
 	if c.Intn(25) == 0 {
 		d.Signer = (d.Payer + 1) % len(w.users) // the payer did not sign
@@ -356,6 +353,13 @@ func (w *world) genTx() (*types.Transaction, *txDesc, error) {
 func (w *world) refill() (*types.Transaction, *txDesc, error) {
 	c := w.c
 	to := 1 + c.Intn(len(w.users)-1)
+	if c.Intn(3) != 0 { // mostly the poorest
+		for i := 1; i < len(w.users); i++ {
+			if w.ongOf(i) < w.ongOf(to) {
+				to = i
+			}
+		}
+	}
 	var amt uint64
 	switch c.Intn(9) {
 	case 0:
